@@ -176,6 +176,8 @@ def run(ctx):
     ctx.extra['stats'] = stats
     ctx.sample({'line': auto_of(trees[0][1])})
     ctx.sample({'line': auto_of(trees[1][1])})
+    import file_common
+    cases += file_common.file_suite(ctx, 'auto', ctx.budget(250, 2500), lang_of=lambda i: 'ja' if i % 4 == 3 else 'en')
     ctx.extra['skipped_unsupported'] = common.compare_with_model(ctx, cases)
     common.conclude(ctx)
 
